@@ -21,7 +21,7 @@ RULE = ("1-8 stations registered in random order, then 1-25 add/remove/update/qu
         ">=1 remove or update and >=1 composed Current; distinct = distinct operation/expression-shape sequence")
 PROBES = ["warning_as_error_survived", "concurrent_callers", "thread_switches", "composed_current", "scalar_multiple_operand", "remove", "update", "update_new_name", "rejected_unknown_station",
           "rejected_unknown_name", "late_register_rejected", "subset_query_reordered", "time_subset_query", "time_window_permuted",
-          "duplicate_name", "unnamed", "series_leaf", "json_restart", "plain_series_operand", "update_derived_from_old_row", "time_window_negative", "shared_operand_world", "late_register_existing_id", "name_collision_beyond_alias"]
+          "duplicate_name", "unnamed", "series_leaf", "json_restart", "plain_series_operand", "update_derived_from_old_row", "time_window_negative", "shared_operand_world", "late_register_existing_id", "name_collision_beyond_alias", "constraint_object_entered_again_unnamed"]
 FAULT_DIMENSION = "restart (network saved to JSON and loaded mid-history); rejected operations (unknown station / unknown name / late register_evse); weakest sense in which the family applies"
 REAL_VS_STUB = "real: ChargingNetwork, Current, EVSE; ours: dict-based reference network (refnet)"
 ASSUMPTIONS = ["row order is only required to be aligned with constraint_index (the position of an updated row is not constrained)",
@@ -78,6 +78,8 @@ def gen_expr(r, stations, depth=0, plain_ok=False):
 
 
 def ev_model(e):
+    if e["k"] == "reuse":
+        return {k: v * (1.0 if e["c"] is None else e["c"]) for k, v in ev_model(e["src"]).items()}
     if e["k"] == "leaf":
         return dict((k, float(v)) for k, v in e["terms"].items())
     if e["k"] in ("add", "sub"):
@@ -94,8 +96,16 @@ def ev_model(e):
 _POOL = [None]      # per-scenario pool of leaf Current objects that several expressions share (set by check())
 
 
+_ADDED = [None]     # per-scenario: aid -> the Current object that was handed to add_constraint
+
+
 def ev_real(e):
     C = sut.Current
+    if e["k"] == "reuse":
+        obj = _ADDED[0].get(e["of"])
+        if obj is None:
+            obj = ev_real(e["src"])      # (the first entry was refused or is no longer part of the history: then it is simply a new object)
+        return obj if e["c"] is None else e["c"] * obj
     if e["k"] == "leaf":
         t = e["terms"]
         if e.get("shared") is not None and _POOL[0] is not None:
@@ -146,6 +156,8 @@ def ev_real_checked(e):
 
 
 def shape(e):
+    if e["k"] == "reuse":
+        return "R(" + shape(e["src"]) + ")"
     if e["k"] == "leaf":
         return "L" + e["form"][0]
     if e["k"] == "mul":
@@ -154,6 +166,8 @@ def shape(e):
 
 
 def has_mul_operand(e):
+    if e["k"] == "reuse":
+        return False
     if e["k"] in ("add", "sub"):
         return e["a"]["k"] == "mul" or e["b"]["k"] == "mul" or has_mul_operand(e["a"]) or has_mul_operand(e["b"])
     if e["k"] == "mul":
@@ -190,7 +204,7 @@ def gen(rs, tier):
             expr = gen_expr(r, stations)
             if r.random() < 0.06:
                 expr = {"k": "add", "a": expr, "b": {"k": "leaf", "form": "dict", "terms": {"GHOST": 1}}}
-            ops.append({"op": "add", "expr": expr, "limit": round(r.uniform(1, 500), 2), "name": nm})
+            ops.append({"op": "add", "expr": expr, "limit": round(r.uniform(1, 500), 2), "name": nm, "aid": counter})
             names.append(nm if nm is not None else "?")
         elif k < 0.55:
             ops.append({"op": "remove", "pick": r.randrange(10 ** 6), "ghost": r.random() < 0.1})
@@ -211,6 +225,17 @@ def gen(rs, tier):
         else:
             ops.append({"op": "roundtrip"})      # restart: the network is saved to JSON, loaded, and the history continues
     rq = sub(rs, "c12env")
+    # a Current object that already IS a constraint is entered again, as it is or as a scalar multiple, without a name (a second
+    # limit on the same aggregate): what the new row is called must not depend on the history of the object handed over
+    rq = sub(rs, "readd")
+    lim = next((i_ for i_, o_ in enumerate(ops) if o_["op"] in ("remove", "update")), len(ops))
+    cand = [o_ for o_ in ops[:lim] if o_["op"] == "add" and o_["name"] is not None and "GHOST" not in json.dumps(o_["expr"])]
+    if cand and rq.random() < 0.15:
+        src = rq.choice(cand)
+        pos = rq.randint(ops.index(src) + 1, lim)
+        ops.insert(pos, {"op": "add", "expr": {"k": "reuse", "of": src["aid"], "c": rq.choice([None, None, 2, 0.5, -1]), "src": src["expr"]},
+                         "limit": round(rq.uniform(1, 500), 2), "name": None, "aid": 10 ** 6})
+
     return {"seed": rs, "stations": stations, "phases": phases, "ops": ops,
             # environment: the caller runs with UserWarnings escalated to exceptions (python -W error::UserWarning, a strict test
             # configuration) and survives them: an operation that ends in such an exception must have changed nothing
@@ -268,6 +293,7 @@ def check(sc):
             warnings.simplefilter("ignore")
             nw = sut.ChargingNetwork()
             _POOL[0] = {}
+            _ADDED[0] = {}
             for s in stations:
                 nw.register_evse(sut.EVSE(s, max_rate=32), 208, sc["phases"][s])
             for i, op in enumerate(sc["ops"]):
@@ -306,6 +332,7 @@ def check(sc):
                                 warnings.simplefilter("error", UserWarning)
                                 nw.add_constraint(cur, op["limit"], name=nm)
                             raised_ = False
+                            _ADDED[0][op.get("aid")] = cur
                         except UserWarning:
                             raised_ = True
                         if raised_:
@@ -314,7 +341,20 @@ def check(sc):
                                 break
                             continue
                     else:
+                        twin = None
+                        if nm is None:
+                            # the same network state, the same limit, an equal Current that nobody has seen before
+                            import copy as _copy
+                            twin = _copy.deepcopy(nw)
+                            twin.add_constraint(sut.Current(dict(coeffs)), op["limit"])
                         nw.add_constraint(cur, op["limit"], name=nm)
+                        _ADDED[0][op.get("aid")] = cur
+                        if e["k"] == "reuse":
+                            out.probe("constraint_object_entered_again_unnamed")
+                        if twin is not None and list(twin.constraint_index) != list(nw.constraint_index):
+                            out.add("C12/unnamed_add_name_depends_on_object_history", "op %d: add_constraint(current, limit) without a name: names are now %s; the same "
+                                    "call with an equal, brand-new Current on a copy of the network gives %s" % (i, list(nw.constraint_index), list(twin.constraint_index)))
+                            break
                     ever = True
                     after = list(nw.constraint_index)
                     if len(set(after)) != len(after) and len(after) == len(before) + 1 and (nm is None or nm in names):
